@@ -49,12 +49,22 @@ func (vc *VC) Run() {
 			o := vc.obligeG("cover", "requires-satisfiable", "true", "false", fn.Pos())
 			o.Expect = "sat"
 		}
+		vc.tokEntry(st)
 		vc.applyHints(-1, "", env)
 		// ghost instrumentation executed at entry: the ghost variables named in the
 		// function's modifies clause take the values given by its ghostdef clauses
 		if len(vc.fc.GhostDefs) > 0 {
 			pre := st.clone()
 			for _, m := range vc.fc.Modifies {
+				mentioned := false
+				for _, c := range vc.fc.GhostDefs {
+					if containsWord(c.Src, m) {
+						mentioned = true
+					}
+				}
+				if !mentioned {
+					continue
+				}
 				if g, ok := prog0Ghost(vc, m); ok {
 					vc.heapKeySort("#ghost."+m, vc.parseType(g.Type, vc.pkg))
 					vc.havocKey(st, "#ghost."+m)
@@ -441,6 +451,11 @@ func (vc *VC) enterLoop(li *loopInfo, b *ssa.BasicBlock, preds []*ssa.BasicBlock
 			vc.assume(r, vc.frameCond(k, vc.heapGet(st, k, vc.heapElem[k]), byKey[k], true))
 		}
 	}
+	// 2a'. tokens: what is owed at the loop head is the same in every iteration (requests received inside
+	// an iteration are settled before the next one)
+	if vc.tokensOn() {
+		li.tokAtHead = vc.tokGet(st)
+	}
 	// 2b. automatic counter bounds: a header phi that only moves in one direction
 	vc.findAutoInv(li)
 	for _, ai := range li.auto {
@@ -509,6 +524,10 @@ func (vc *VC) checkInvariant(li *loopInfo, from *ssa.BasicBlock, st *State, whic
 	vc.cur, vc.curIdx = from, len(from.Instrs)
 	defer func() { vc.cur, vc.curIdx = save, saveIdx; vc.curState = saveSt }()
 	env := vc.loopEnv(li, from, st)
+	if vc.tokensOn() && which == "back" && li.tokAtHead != "" {
+		cond := fmt.Sprintf("(forall ((x!t Loc)) (= (select %s x!t) (select %s x!t)))", vc.tokGet(st), li.tokAtHead)
+		vc.obligeG("token", fmt.Sprintf("loop%d-every-received-request-settled-within-the-iteration", li.ord), g, cond, vc.loopPos(li))
+	}
 	if keys, byKey, ok := vc.loopFrame(li); ok {
 		for _, k := range keys {
 			h := vc.heapGet(st, k, vc.heapElem[k])
@@ -1290,6 +1309,7 @@ func (vc *VC) ret(x *ssa.Return, st *State) {
 		}
 	}
 	vc.frameCheck(st, x.Pos())
+	vc.tokReturn(st, env, x.Pos())
 	o := vc.oblige("cover", "return-reachable", "false", x.Pos())
 	o.Expect = "sat"
 }
@@ -1546,4 +1566,21 @@ func freeVarOnlyRead(fn *ssa.Function, idx int, depth int) bool {
 		}
 	}
 	return true
+}
+
+func containsWord(s, w string) bool {
+	i := 0
+	for {
+		j := strings.Index(s[i:], w)
+		if j < 0 {
+			return false
+		}
+		j += i
+		end := j + len(w)
+		isId := func(c byte) bool { return c == '_' || (c >= 'a' && c <= 'z') || (c >= 'A' && c <= 'Z') || (c >= '0' && c <= '9') }
+		if (j == 0 || !isId(s[j-1])) && (end == len(s) || !isId(s[end])) {
+			return true
+		}
+		i = j + 1
+	}
 }
